@@ -510,6 +510,28 @@ class Ctx:
         self.notes.append(msg)
 
 
+#: structural signatures of opaque results (function name + argument signatures):
+#: what a value was computed from, for relational (non-interference) obligations
+SIGS = {}
+
+
+def sig_of(v):
+    ent = SIGS.get(id(v))
+    if ent is not None and ent[0] is v:
+        return ent[1]
+    if isinstance(v, SObj):
+        return ("obj", v.clsname)
+    if isinstance(v, SArr):
+        return ("arr", str(v.a), str(v.n))
+    if isinstance(v, Sym) and hasattr(v, "e"):
+        return ("sym", str(v.e))
+    if isinstance(v, dict):
+        return ("dict", tuple(sorted((str(k), sig_of(x)) for k, x in v.items())))
+    if isinstance(v, (list, tuple)):
+        return (type(v).__name__, tuple(sig_of(x) for x in v))
+    return ("const", repr(v))
+
+
 # --------------------------------------------------------------------------
 # the engine
 # --------------------------------------------------------------------------
@@ -549,6 +571,9 @@ class Engine:
                 ends["infeasible" if "infeasible" in str(e) else "cut"] += 1
             obligations.extend(ctx.obligations)
             notes.extend(ctx.notes)
+        if hasattr(unit, "finalize"):
+            # relational obligations over the set of paths (e.g. non-interference)
+            obligations.extend(unit.finalize() or [])
         loops = {f"{k[1]} loop{k[2]} (line {k[3]})": v for k, v in self.stats.get("loops", {}).items()
                  if k[0] == unit.name}
         rep = {"paths": npaths, "ends": ends, "gen_s": round(time.time() - t0, 3), "cut_loops": loops,
@@ -1191,6 +1216,9 @@ class Interp:
             nn = z3.simplify(v.n)
             if z3.is_int_value(nn) and nn.as_long() == n:
                 return [wrap(v.sel(i)) for i in range(n)]
+        if isinstance(v, SOpaque) and getattr(v, "pytype", None) is None:
+            # components of an opaque tuple result
+            return [SOpaque(self.ctx.const(f"{v.e}_part{i}", v.e.sort())) for i in range(n)]
         raise Unsupported(f"unpack of {type(v).__name__}")
 
     def setattr(self, obj, name, v, f):
@@ -1214,6 +1242,10 @@ class Interp:
         raise Unsupported(f"attribute store on {type(obj).__name__}.{name}")
 
     def setitem(self, obj, key, v):
+        if isinstance(obj, SOpaque) and self._opaque_operands(obj):
+            # in-place update of an opaque value: its signature records the dependency
+            SIGS[id(obj)] = (obj, ("store", sig_of(obj), sig_of(key), sig_of(v)))
+            return None
         m = self.models.setitem(self, obj, key, v)
         if m is NotImplemented:
             raise Unsupported(f"item store on {type(obj).__name__}")
@@ -1338,6 +1370,11 @@ class Interp:
         if op == "Not":
             t = self.truth(v)
             return (not t) if isinstance(t, bool) else wrap(z3.Not(t.e))
+        if self._opaque_operands(v):
+            from .sym import Elem
+            r = SOpaque(self.ctx.const(f"unary_{op}", Elem))
+            SIGS[id(r)] = (r, (op, sig_of(v)))
+            return r
         return self.models.unaryop(self, op, v)
 
     def e_BinOp(self, e, f):
@@ -1345,7 +1382,19 @@ class Interp:
         b = self.eval(e.right, f)
         return self.binop(type(e.op).__name__, a, b)
 
+    def _opaque_operands(self, *vs):
+        unit = getattr(getattr(self, "cur_frame", None), "unit", None)
+        if not getattr(unit, "opaque_arith", False):
+            return False
+        return any(isinstance(v, SOpaque) and getattr(v, "pytype", None) is None for v in vs) \
+            or any(isinstance(v, float) and v != v for v in vs)
+
     def binop(self, op, a, b, inplace=False):
+        if self._opaque_operands(a, b):
+            from .sym import Elem
+            r = SOpaque(self.ctx.const(f"arith_{op}", Elem))
+            SIGS[id(r)] = (r, (op, sig_of(a), sig_of(b)))
+            return r
         return self.models.binop(self, op, a, b, inplace)
 
     def e_Compare(self, e, f):
@@ -1353,7 +1402,12 @@ class Interp:
         result = None
         for op, rhs in zip(e.ops, e.comparators):
             right = self.eval(rhs, f)
-            r = self.models.compare(self, type(op).__name__, left, right)
+            if self._opaque_operands(left, right) and type(op).__name__ not in ("Is", "IsNot", "In", "NotIn"):
+                from .sym import Elem
+                r = SOpaque(self.ctx.const(f"cmp_{type(op).__name__}", Elem))
+                SIGS[id(r)] = (r, (type(op).__name__, sig_of(left), sig_of(right)))
+            else:
+                r = self.models.compare(self, type(op).__name__, left, right)
             if result is None:
                 result = r
             else:
@@ -1497,6 +1551,18 @@ class Interp:
         if isinstance(fn, SObj):
             m = self.getattr(fn, "__call__", f, node)
             return self.call(m, args, kwargs, f, node)
+        if getattr(f.unit, "opaque_arith", False):
+            # effects-only units: numeric content is abstracted -- any numpy function
+            # applied to symbolic data yields an opaque value
+            fmod = getattr(fn, "__module__", None) or ""
+            import numpy as _np
+            if (fmod.startswith("numpy") or isinstance(fn, _np.ufunc)) \
+                    and (any(_has_sym(a) for a in args) or any(_has_sym(v) for v in kwargs.values())):
+                from .sym import Elem
+                r = SOpaque(self.ctx.const(f"np_{getattr(fn, '__name__', 'f')}", Elem))
+                SIGS[id(r)] = (r, (f"numpy.{getattr(fn, '__name__', 'f')}", tuple(sig_of(a) for a in args),
+                                   tuple(sorted((k, sig_of(v)) for k, v in kwargs.items()))))
+                return r
         # model registered for this very callable?
         model = self.models.lookup(fn)
         if model is not None:
@@ -1505,6 +1571,21 @@ class Interp:
             return PyRaiseValue(fn, args)
         # dclab function or class -> contract / inline
         mod = getattr(fn, "__module__", None) or ""
+        om = getattr(f.unit, "opaque_modules", ())
+        if om and mod.startswith(tuple(om)) and callable(fn) and not isinstance(fn, type):
+            # declared by the unit: functions of these modules are pure functions of
+            # their arguments (they are not handed the object under contract)
+            guard = getattr(f.unit, "opaque_guard", None)
+            if guard is not None:
+                guard(self, fn, args, kwargs)
+            self.ctx.note(f"opaque pure call: {mod}.{getattr(fn, '__name__', '?')}")
+            nm = getattr(fn, "__name__", "f")
+            from .sym import Elem
+            r = SOpaque(self.ctx.const(f"{nm}_result", Elem))
+            r_sig = (f"{mod}.{nm}", tuple(sig_of(a) for a in args),
+                     tuple(sorted((k, sig_of(v)) for k, v in kwargs.items())))
+            SIGS[id(r)] = (r, r_sig)
+            return r
         if isinstance(fn, (types.FunctionType, types.MethodType)) and mod.startswith("dclab"):
             key = f"{mod}:{getattr(fn, '__qualname__', '')}"
             if (key in f.unit.native or getattr(fn, "__qualname__", "") in f.unit.native) \
